@@ -377,12 +377,14 @@ func (t *ART) newNode4() (artNode, *node4) {
 
 func (t *ART) newLeaf(key artKey) (artNode, *artLeaf) {
 	addr, lf := t.allocator.allocLeaf(key)
+	// a new leaf is not counted in len/size until its first setValue.
+	lf.markDelete()
 	return artNode{kind: typeLeaf, addr: addr}, lf
 }
 
 func (t *ART) setValue(addr arena.MemdbArenaAddr, l *artLeaf, value []byte, ops []kv.FlagsOp) {
 	flags := l.GetKeyFlags()
-	if flags == 0 && l.vLogAddr.IsNull() || l.isDeleted() {
+	if l.isDeleted() {
 		t.len++
 		t.size += int(l.keyLen)
 	}
